@@ -15,13 +15,13 @@ ID = 'C14'
 LEVEL = 'exploration'
 WORKERS = {'quick': 10, 'thorough': 14}
 BUDGET_S = {'quick': 70, 'thorough': 480}
-REQUIRED_COUNTERS = ['template_rows', 'pooled_matrices', 'scores_compared', 'match_before_build_refused', 'build_batches_kernel0', 'build_batches_kernel1',
+REQUIRED_COUNTERS = ['template_rows', 'pooled_matrices', 'scores_compared', 'scores_compared_end_to_end', 'pinv_compared', 'match_before_build_refused', 'build_batches_kernel0', 'build_batches_kernel1',
                      'singleton_class_cases']
 RULE = ('a case = (TemplateAttack | TemplateDPAAttack, precision, 2..12 classes (any values / order), trace length 1..6, build set 1..4 batches '
         'with a dictated kernel per batch, balanced | unbalanced | with a one-trace class, matching set 1..4 batches, integer or float '
         'traces, run-before-build probe); non-trivial = templates, pooled covariance or scores compared with the oracle; distinct by all of these')
 ASSUMPTIONS = ['covariance of classes with fewer than 2 building traces is undefined: the pooled covariance and the scores are not judged then '
-               '(the class means still are)', 'scores compared within 1e-9*cond (float64) / 2e-4*cond (float32) relative to |10 - score|; '
+               '(the class means still are)', 'scores compared (i) tightly with the Mahalanobis distance under the published profile (1e-10*cond float64 / 2e-5*cond float32, relative to 1+|10 - score|), (ii) end to end with the oracle profile, the tolerance carrying the covariance rounding bound amplified by the inversion; '
                'cases with cond(pooled) > 1e3 (float32) / 1e6 (float64) are counted undecidable']
 
 
@@ -169,24 +169,48 @@ def run_case(case):
     if cond > (1e3 if prec == 'float32' else 1e6):
         t.count('undecidable_by_conditioning')
         return t.result(sig=f"{kind}|{prec}|{struct}|{K}|{T}|{tdtype}|{build_bs}|{n}", sample=dict(info, cond=cond))
-    Minv = np.linalg.pinv(p_or)
     x = msamples.astype(float)
     row_of = {v: i for i, v in enumerate(declared)}
     if kind == 'tstatic':
         cand = [np.full(n, i) for i in range(K)]
     else:
         cand = [np.array([row_of[int(v)] for v in hyp[:, g]]) for g in range(G)]
-    exp = []
-    for ix in cand:
-        d = x - m_or[ix]
-        exp.append(10 - float(np.sum((d @ Minv) * d)) / (T * n))
-    exp = np.array(exp)
-    rtol = (2e-4 if prec == 'float32' else 1e-9) * max(cond, 1.0)
-    t.count('scores_compared', len(exp))
-    ok = scores.shape == exp.shape and bool(np.all(np.abs(scores - exp) <= rtol * (1 + np.abs(10 - exp))))
-    if scores.shape == exp.shape:
-        t.metric('score_ratio', float(np.max(np.abs(scores - exp) / (rtol * (1 + np.abs(10 - exp))))))
-    t.check(ok, 'score_is_not_mahalanobis', lambda: dict(info, got=scores.tolist(), expected=exp.tolist(), rtol=rtol, cond=cond))
+
+    def maha(mean_rows, inv):
+        out = []
+        for ix in cand:
+            d = x - mean_rows[ix]
+            out.append(10 - float(np.sum((d @ inv) * d)) / (T * n))
+        return np.array(out)
+
+    base_rtol = (2e-5 if prec == 'float32' else 1e-10) * max(cond, 1.0)
+    # (a) pseudo-inverse clause: the published inverse is the pseudo-inverse of the published pooled covariance
+    inv_obs = np.asarray(att.pooled_covariance_inv, dtype=float)
+    inv_ref = np.linalg.pinv(pooled)
+    t.count('pinv_compared')
+    t.check(inv_obs.shape == (T, T) and bool(np.all(np.abs(inv_obs - inv_ref) <= 64 * eps * cond * np.abs(inv_ref).max())), 'pooled_inverse_is_not_pinv',
+            lambda: dict(info, got=inv_obs.tolist()[:2], expected=inv_ref.tolist()[:2], cond=cond))
+    # (b) matching clause, tight: Mahalanobis distance to the candidate's template with the *published* profile
+    exp_b = maha(templates, inv_obs)
+    t.count('scores_compared', len(exp_b))
+    ok = scores.shape == exp_b.shape and bool(np.all(np.abs(scores - exp_b) <= base_rtol * (1 + np.abs(10 - exp_b))))
+    if scores.shape == exp_b.shape:
+        t.metric('score_ratio', float(np.max(np.abs(scores - exp_b) / (base_rtol * (1 + np.abs(10 - exp_b))))))
+    t.check(ok, 'score_is_not_mahalanobis', lambda: dict(info, got=scores.tolist(), expected=exp_b.tolist(), rtol=base_rtol, cond=cond))
+    # (c) end to end against the oracle's own profile: the rounding of the covariance accumulation in the requested precision
+    # (bounded by ptol, checked above) is amplified by the inversion, so the tolerance carries ptol * ||P^-1||
+    Minv = np.linalg.pinv(p_or)
+    exp = maha(m_or, Minv)
+    amp = ptol * float(np.linalg.norm(Minv, 2))
+    rtol = base_rtol + 4 * amp
+    if amp > 0.02:
+        t.count('end_to_end_undecidable_by_rounding')
+    else:
+        t.count('scores_compared_end_to_end', len(exp))
+        ok2 = scores.shape == exp.shape and bool(np.all(np.abs(scores - exp) <= rtol * (1 + np.abs(10 - exp))))
+        if scores.shape == exp.shape:
+            t.metric('score_e2e_ratio', float(np.max(np.abs(scores - exp) / (rtol * (1 + np.abs(10 - exp))))))
+        t.check(ok2, 'score_is_not_mahalanobis_of_definition', lambda: dict(info, got=scores.tolist(), expected=exp.tolist(), rtol=rtol, cond=cond))
     if ok and n >= 9 and kind == 'tstatic':
         # consequence stated by the property: the best-matching candidate has the highest score
         t.check(int(np.argmax(scores)) == int(np.argmax(exp)), 'best_candidate_differs', lambda: dict(info, got=scores.tolist(), expected=exp.tolist()))
